@@ -87,7 +87,7 @@ def main(pid, argv):
     nf = 0
     for line, meta, il, ml in zip(lines, metas, impl, model):
         bad = None
-        if il.startswith("PANIC") or il.startswith("CRASH"):
+        if il.startswith(("PANIC", "CRASH", "HANG")):
             bad = "client call crashed: " + il[:200]
         elif meta is not None and meta[0] == "flags":
             _, fl, m = meta
